@@ -194,7 +194,7 @@ func evalConversion(rep sink, conv string, v backendValue, form int, bareKind st
 	defer func() {
 		if p := recover(); p != nil {
 			sp.Note = fmt.Sprintf("panic: %v", p)
-			rep.Violation(fmt.Sprintf("convert:%s:panic:%s:%s", conv, v.id, formNames[form]), sp)
+			rep.Violation(fmt.Sprintf("convert:%s:panic:%s", conv, v.id), sp)
 		}
 	}()
 	in := inForm(v.mk(), form)
@@ -205,7 +205,13 @@ func evalConversion(rep sink, conv string, v backendValue, form int, bareKind st
 	if verbose {
 		fmt.Printf("REPLAY %s(%s in form %s = %q) = %q  kinds=%s\n", conv, v.id, formNames[form], in, fmt.Sprint(r), kind)
 	}
-	sig := func(clause string) string { return fmt.Sprintf("convert:%s:%s:%s:%s", conv, clause, v.id, formNames[form]) }
+	// the form is part of the signature only where the form is what the clause is about
+	sig := func(clause string) string {
+		if clause == "wrapper-changes-kind" {
+			return fmt.Sprintf("convert:%s:%s:%s:%s", conv, clause, v.id, formNames[form])
+		}
+		return fmt.Sprintf("convert:%s:%s:%s", conv, clause, v.id)
+	}
 	mask, n := recognised(r)
 	// CV1
 	if n > 1 {
